@@ -15,9 +15,10 @@ trap 'git -C /repo checkout -- . ; git -C /repo clean -fdq pkg; rm -rf $tmp' EXI
 for d in seeded/C*/; do
   id=$(basename $d)
   prop=$(python3 -c "import json;print(json.load(open('$d/meta.json'))['property'])")
+  also=$(python3 -c "import json;print(' '.join(json.load(open('$d/meta.json')).get('also_check',[])))")
   git -C /repo apply /verif/$d/patch.diff || { echo "| $id | $prop | PATCH DOES NOT APPLY |" >> $out; continue; }
   hits=""
-  for p in $prop $extra; do
+  for p in $prop $also $extra; do
     BCV_OUT=$tmp/$p checker/bcv check $p quick > $tmp/$id.$p.log 2>&1; rc=$?
     if [ "$rc" = "1" ]; then
       rules=$(grep -v '^KNOWN' $tmp/$id.$p.log | grep -o "\[C[0-9]*\.[A-Z0-9]*\]" | sort -u | tr -d '[]' | tr '\n' ' ')
